@@ -2,10 +2,10 @@ package rules
 
 import (
 	"fmt"
-	"os"
 	"go/constant"
 	"go/token"
 	"go/types"
+	"os"
 	"strings"
 
 	"gojaverif/core"
@@ -158,9 +158,9 @@ var asciiProducers = map[string]string{
 }
 
 var strBirthExceptions = map[string]string{
-	"(unicodeString).ToNumber:ascii":           "transient value: only ToNumber() is called on it and never escapes; bytes >= 0x80 left after trimming make the numeric parse fail, which is the specified result (NaN)",
-	"(*objectGoMapReflect).keyToString:ascii":   "inside the case for numeric reflect.Kinds: fmt formatting of integers and floats is ASCII",
-	"(*Runtime).stringproto_split:ascii":        "the chunk su[:idx] was scanned for units >= 0x80 by the loop just above, which jumps past this birth when it finds one",
+	"(unicodeString).ToNumber:ascii":          "transient value: only ToNumber() is called on it and never escapes; bytes >= 0x80 left after trimming make the numeric parse fail, which is the specified result (NaN)",
+	"(*objectGoMapReflect).keyToString:ascii": "inside the case for numeric reflect.Kinds: fmt formatting of integers and floats is ASCII",
+	"(*Runtime).stringproto_split:ascii":      "the chunk su[:idx] was scanned for units >= 0x80 by the loop just above, which jumps past this birth when it finds one",
 }
 
 // impliesWide: the condition, with this polarity, implies that some value is >= 0x80.
